@@ -93,6 +93,20 @@ def run(ctx):
         {"cls": "Page", "id": None, "kids": [{"cls": c, "id": i, "kids": []} for c, i in
                                             [("Page", None), ("Page1", None), ("Page", None), ("Page12", None), ("Page1", None), ("Page", "page12"), ("Page", None)]]},
     ]
+    # duplicated ids in every family relation: siblings, cousins, uncle / nephew, parent / child, root / grandchild
+    def N(cls, i, *kids):
+        return {"cls": cls, "id": i, "kids": list(kids)}
+    corpus_src += [
+        N("QWidget", None, N("QLabel", "dup"), N("QLabel", "dup")),
+        N("QWidget", None, N("QGroupBox", None, N("QLabel", "dup")), N("QGroupBox", None, N("QLabel", "dup"))),
+        N("QWidget", None, N("QGroupBox", "dup"), N("QGroupBox", None, N("QLabel", "dup"))),
+        N("QWidget", None, N("QGroupBox", None, N("QLabel", "dup")), N("QGroupBox", "dup")),
+        N("QWidget", None, N("QGroupBox", "dup", N("QLabel", "dup"))),
+        N("QWidget", None, N("QGroupBox", "dup", N("QFrame", None, N("QLabel", "dup")))),
+        N("QWidget", "dup", N("QLabel", "dup")),
+        N("QWidget", "dup", N("QGroupBox", None, N("QLabel", None), N("QLabel", "dup"))),
+        N("QWidget", "dup", N("QGroupBox", "dup", N("QLabel", "dup"))),
+    ]
     trees = list(corpus_src)
     n = 2500 if ctx.tier == "thorough" else 500
     for _ in range(n):
